@@ -123,6 +123,7 @@ type v4Cluster struct {
 	nstr   int
 	log    []v4Entry
 	intent string
+	stuck  string
 }
 
 var v4C *v4Cluster
@@ -273,6 +274,18 @@ func (c *v4Cluster) await(what string, cond func() bool) {
 	}
 }
 
+// stepAwait waits for what a step of a behaviour should bring about.  When it does not come about (the code
+// under test deviates from what the behaviour was generated for) the step is recorded as stuck - an
+// observation - and the behaviour ends there.
+func (c *v4Cluster) stepAwait(what string, cond func() bool) {
+	if c.stuck != "" {
+		return
+	}
+	if !c.awaitFor(12*time.Second, cond) {
+		c.stuck = what
+	}
+}
+
 // awaitFor is await with a bounded patience: false = the condition did not come about
 func (c *v4Cluster) awaitFor(d time.Duration, cond func() bool) bool {
 	deadline := time.Now().Add(d)
@@ -411,17 +424,20 @@ func (c *v4Cluster) appliedOf(id string, log []v4Entry) int {
 func (c *v4Cluster) settle() {
 	ld := c.leader()
 	if ld == "" {
-		v4Fatal("no Raft leader")
+		c.stepAwait("a Raft leader", func() bool { return c.leader() != "" })
+		if ld = c.leader(); ld == "" {
+			return
+		}
 	}
 	ci := c.srv[ld].getRaft().getCommitIndex()
 	for _, id := range v4IDs {
 		id := id
-		c.await("commit index at "+id, func() bool { return c.srv[id].getRaft().getCommitIndex() >= ci })
+		c.stepAwait("commit index at "+id, func() bool { return c.srv[id].getRaft().getCommitIndex() >= ci })
 	}
 	c.log = c.readLog()
 	for _, id := range v4IDs {
 		id := id
-		c.await("FSM of "+id, func() bool { return c.fsmPark(id) != nil || c.appliedOf(id, c.log) == len(c.log) })
+		c.stepAwait("FSM of "+id, func() bool { return c.fsmPark(id) != nil || c.appliedOf(id, c.log) == len(c.log) })
 	}
 	for _, in := range c.insts {
 		in := in
@@ -629,7 +645,7 @@ func (c *v4Cluster) nsub() int {
 // mutex, has returned, or has propagated the request (its copies are parked in the handlers)
 func (c *v4Cluster) afterDispatch(in *v4Inst) {
 	nsub := c.nsub()
-	c.await(fmt.Sprintf("instance %d after dispatch", in.id), func() bool {
+	c.stepAwait(fmt.Sprintf("instance %d after dispatch", in.id), func() bool {
 		if pc, _ := c.pcOf(in); pc == "done" {
 			return true
 		}
@@ -687,7 +703,7 @@ func (c *v4Cluster) step(step map[string]interface{}) (ev v4Event) {
 			args[k] = v
 		}
 	}
-	ev = v4Event{A: a, Args: args, Obs: map[string]interface{}{"crash": ""}}
+	ev = v4Event{A: a, Args: args, Obs: map[string]interface{}{"crash": "", "stuck": ""}}
 	skip := func(why string) v4Event {
 		ev.A = "Skip"
 		ev.Args = map[string]interface{}{"of": a, "why": why}
@@ -778,7 +794,7 @@ func (c *v4Cluster) step(step map[string]interface{}) (ev v4Event) {
 		in.bar = len(c.log)
 		c.setPc(in, "barrier")
 		c.release(p)
-		c.await(fmt.Sprintf("instance %d in applyOperation", in.id), func() bool {
+		c.stepAwait(fmt.Sprintf("instance %d in applyOperation", in.id), func() bool {
 			if pc, _ := c.pcOf(in); pc == "done" {
 				return true
 			}
@@ -803,7 +819,7 @@ func (c *v4Cluster) step(step map[string]interface{}) (ev v4Event) {
 		n := len(c.log)
 		c.setPc(in, "proposed")
 		c.release(p)
-		c.await(fmt.Sprintf("instance %d proposing", in.id), func() bool {
+		c.stepAwait(fmt.Sprintf("instance %d proposing", in.id), func() bool {
 			if pc, _ := c.pcOf(in); pc == "done" {
 				return true
 			}
@@ -821,7 +837,7 @@ func (c *v4Cluster) step(step map[string]interface{}) (ev v4Event) {
 		}
 		before := atomic.LoadUint64(&c.lis[s].last)
 		c.release(p)
-		c.await("apply at "+s, func() bool { return atomic.LoadUint64(&c.lis[s].last) > before })
+		c.stepAwait("apply at "+s, func() bool { return atomic.LoadUint64(&c.lis[s].last) > before })
 	case "Cancel":
 		in := inst()
 		if in == nil || in.par != 0 || in.cancel == nil {
@@ -831,7 +847,7 @@ func (c *v4Cluster) step(step map[string]interface{}) (ev v4Event) {
 			return skip("not waiting for a propagated request")
 		}
 		in.cancel()
-		c.await("cancelled request", func() bool { pc, _ := c.pcOf(in); return pc == "done" })
+		c.stepAwait("cancelled request", func() bool { pc, _ := c.pcOf(in); return pc == "done" })
 		c.mu.Lock()
 		in.res = "cancelled"
 		c.mu.Unlock()
@@ -853,9 +869,9 @@ func (c *v4Cluster) step(step map[string]interface{}) (ev v4Event) {
 			return skip("notification queue full")
 		}
 		if err := c.srv[old].getRaft().LeadershipTransferToServer(raft.ServerID(t), raft.ServerAddress(t)).Error(); err != nil {
-			v4Fatal("leadership transfer %s -> %s: %v", old, t, err)
+			c.stuck = fmt.Sprintf("leadership transfer %s -> %s: %v", old, t, err)
 		}
-		c.await("leadership at "+t, func() bool {
+		c.stepAwait("leadership at "+t, func() bool {
 			if c.srv[t].getRaft().State() != raft.Leader {
 				return false
 			}
@@ -879,9 +895,9 @@ func (c *v4Cluster) step(step map[string]interface{}) (ev v4Event) {
 		more := len(node.notifyCh)
 		c.release(p)
 		if a == "Lost" {
-			c.await("leadershipLost at "+s, func() bool { return !node.isLeader() && c.srv[s].leaderSub == nil })
+			c.stepAwait("leadershipLost at "+s, func() bool { return !node.isLeader() && c.srv[s].leaderSub == nil })
 		} else {
-			c.await("leadershipAcquired at "+s, func() bool {
+			c.stepAwait("leadershipAcquired at "+s, func() bool {
 				if node.isLeader() {
 					return true
 				}
@@ -900,6 +916,7 @@ func (c *v4Cluster) step(step map[string]interface{}) (ev v4Event) {
 	}
 	c.settle()
 	ev.St = c.state()
+	ev.Obs["stuck"] = c.stuck
 	return ev
 }
 
@@ -934,6 +951,24 @@ func (c *v4Cluster) open(b vBehaviour) {
 	c.mu.Unlock()
 }
 
+// quiet waits until every leadership loop has handled its notifications (a transfer that meets a server in
+// the middle of leadershipAcquired makes that server step down by itself)
+func (c *v4Cluster) quiet() {
+	c.awaitFor(10*time.Second, func() bool {
+		ld := c.leader()
+		if ld == "" {
+			return false
+		}
+		for _, id := range v4IDs {
+			s := c.srv[id]
+			if len(s.getRaft().notifyCh) > 0 || s.getRaft().isLeader() != (id == ld) {
+				return false
+			}
+		}
+		return true
+	})
+}
+
 // cleanup lets everything run to its end and brings the cluster back to "a leads, no stream"
 func (c *v4Cluster) cleanup() {
 	c.mu.Lock()
@@ -959,6 +994,7 @@ func (c *v4Cluster) cleanup() {
 	// leadership settles (notifications in flight are handled now), then a leads again
 	c.await("a Raft leader", func() bool { return c.leader() != "" })
 	for try := 0; c.leader() != "a"; try++ {
+		c.quiet()
 		ld := c.leader()
 		if ld != "" {
 			c.srv[ld].getRaft().LeadershipTransferToServer(raft.ServerID("a"), raft.ServerAddress("a")).Error()
@@ -999,14 +1035,19 @@ func (c *v4Cluster) cleanup() {
 
 func v4Behaviour(c *v4Cluster, b vBehaviour) []v4Event {
 	c.open(b)
-	open := v4Event{T: b.ID, A: "Open", Args: map[string]interface{}{}, St: c.state(), Obs: map[string]interface{}{"crash": ""}}
+	open := v4Event{T: b.ID, A: "Open", Args: map[string]interface{}{}, St: c.state(), Obs: map[string]interface{}{"crash": "", "stuck": ""}}
 	evs := []v4Event{open}
 	for _, step := range b.Steps {
 		c.noteIntent(b.ID, evs, step)
 		ev := c.step(step)
 		ev.T = b.ID
 		evs = append(evs, ev)
+		if c.stuck != "" {
+			break
+		}
 	}
+	stuck := c.stuck
+	c.stuck = ""
 	// everything in flight runs to its end: the final state is judged as well
 	c.noteIntent(b.ID, evs, map[string]interface{}{"a": "Drain"})
 	c.mu.Lock()
@@ -1022,11 +1063,15 @@ func v4Behaviour(c *v4Cluster, b vBehaviour) []v4Event {
 		c.awaitFor(40*time.Second, func() bool { p, _ := c.pcOf(in); return p == "done" })
 	}
 	c.await("a Raft leader", func() bool { return c.leader() != "" })
+	c.quiet()
 	c.settle()
+	if c.stuck != "" {
+		v4Fatal("after behaviour %d (stuck at %q): %s", b.ID, stuck, c.stuck)
+	}
 	for _, id := range v4IDs {
 		c.acqw[id] = -1
 	}
-	fin := v4Event{T: b.ID, A: "Drain", Args: map[string]interface{}{}, St: c.state(), Obs: map[string]interface{}{"crash": ""}}
+	fin := v4Event{T: b.ID, A: "Drain", Args: map[string]interface{}{}, St: c.state(), Obs: map[string]interface{}{"crash": "", "stuck": ""}}
 	evs = append(evs, fin)
 	c.noteIntent(b.ID, nil, map[string]interface{}{"a": "cleanup"})
 	c.cleanup()
